@@ -56,6 +56,7 @@ def main(argv=None):
     ap.add_argument('--units', default=None, help='comma separated subset of units (debug)')
     ap.add_argument('--no-evidence', action='store_true')
     ap.add_argument('--canary', default=None, help='unit/canary: run one canary only (debug)')
+    ap.add_argument('--write-baseline', action='store_true', help='record the discharged obligations of this run in baseline_obligations.json')
     a = ap.parse_args(argv)
     seed = int(os.environ.get('VERIF_SEED', '0') or 0)
     t0 = time.time()
@@ -155,10 +156,16 @@ def main(argv=None):
                         if o['status'] != 'discharged':
                             got.add(o['id'].split(':', 1)[-1])
                 killed = bool(got - {'undecided'})   # any named obligation failing kills the canary; `expect` documents the intended one
-                canary_log.append(dict(unit=un, canary=cname, expected=list(expect), failed=sorted(got), killed=killed, error=err))
+                na = [r.get('canary_na') for r in rs if r.get('canary_na')]
+                canary_log.append(dict(unit=un, canary=cname, expected=list(expect), failed=sorted(got), killed=killed, error=err,
+                                       not_applicable=(na[0] if na else None)))
+                if na:
+                    # the construct the canary mutates is not in the code (any more): nothing to learn from it on this tree
+                    continue
                 if not killed:
                     errors.append((un, cname, 'canary %s still verifies: contract too weak (got %s)' % (cname, sorted(got))))
 
+    bounded_obs = [o for o in obligations if o.get('bounded')]
     nob = len(obligations)
     ndis = len([o for o in obligations if o['status'] == 'discharged'])
     if nob == 0 and not errors and not undecided:
@@ -197,6 +204,19 @@ def main(argv=None):
     for u_ in undecided[:20]:
         print('UNDECIDED %s/%s: %s' % (u_[0], u_[1], u_[2]))
 
+    if a.write_baseline:
+        unit_hashes = {}
+        for un in unit_names:
+            unit_hashes[un] = dict(('%s:%s' % (d['file'], d['function']), d.get('sha256_16')) for d in harness.describe_functions(harness.UNITS[un]))
+        by_key = {}
+        for o in obligations:
+            key = '%s|%s' % (o.get('unit'), o['id'])
+            by_key[key] = by_key.get(key, True) and o['status'] == 'discharged'
+        for key, ok in by_key.items():
+            if ok:
+                baseline[key] = dict(discharged=True, hashes=unit_hashes.get(key.split('|')[0], {}))
+        with open(os.path.join(HERE, 'baseline_obligations.json'), 'w') as f:
+            json.dump(baseline, f, indent=0, sort_keys=True)
     wall = time.time() - t0
     if not a.no_evidence and not a.units:
         write_evidence(a, P, unit_names, results, obligations, ndis, canary_log, known_hits, violations, undecided, errors, wall, seed)
@@ -272,7 +292,9 @@ def write_evidence(a, P, unit_names, results, obligations, ndis, canary_log, kno
     ev = dict(
         property_id=a.pid, tier=a.tier, seed=seed, level=P.get('level', 'proof'),
         coverage=dict(
-            obligations=len(obligations) - len(known_hits), discharged=ndis,
+            obligations=len(obligations) - len(known_hits) - len([o for o in obligations if o.get('bounded')]),
+            discharged=ndis - len([o for o in obligations if o.get('bounded') and o['status'] == 'discharged']),
+            bounded_results=[dict(id=o['id'], status=o['status'], how=o.get('solver'), detail=o.get('info')) for o in obligations if o.get('bounded')],
             obligations_failing_as_known_findings=len(known_hits),
             obligations_total_generated=len(obligations),
             checker_cmd='./check %s --tier %s' % (a.pid, a.tier),
